@@ -250,7 +250,8 @@ pub struct HvcCArray {
 }
 
 impl<R: Read + Seek> ReadBox<&mut R> for HvcCBox {
-    fn read_box(reader: &mut R, _size: u64) -> Result<Self> {
+    fn read_box(reader: &mut R, size: u64) -> Result<Self> {
+        let end = box_start(reader)?.saturating_add(size);
         let configuration_version = reader.read_u8()?;
         let params = reader.read_u8()?;
         let general_profile_space = (params & 0b11000000) >> 6;
@@ -277,12 +278,23 @@ impl<R: Read + Seek> ReadBox<&mut R> for HvcCBox {
 
         let mut arrays = Vec::with_capacity(num_of_arrays as _);
         for _ in 0..num_of_arrays {
+            // The arrays and NAL units are counted and length-prefixed by fields of the box itself:
+            // none of them may extend beyond the box.
+            if reader.stream_position()?.saturating_add(3) > end {
+                return Err(Error::InvalidData("hvcC array extends beyond the box"));
+            }
             let params = reader.read_u8()?;
             let num_nalus = reader.read_u16::<BigEndian>()?;
-            let mut nalus = Vec::with_capacity(num_nalus as usize);
+            let mut nalus = Vec::new();
 
             for _ in 0..num_nalus {
+                if reader.stream_position()?.saturating_add(2) > end {
+                    return Err(Error::InvalidData("hvcC NAL unit extends beyond the box"));
+                }
                 let size = reader.read_u16::<BigEndian>()?;
+                if reader.stream_position()?.saturating_add(size as u64) > end {
+                    return Err(Error::InvalidData("hvcC NAL unit extends beyond the box"));
+                }
                 let mut data = vec![0; size as usize];
 
                 reader.read_exact(&mut data)?;
